@@ -75,6 +75,12 @@ class ParagraphsMergingISDFilter(ISDFilter):
         for div in original_divs:
           div.remove()
 
+        # the merged paragraph keeps the style properties on which all paragraphs agree (e.g. text alignment)
+        for style_prop in list(paragraphs[0].iter_styles()):
+          value = paragraphs[0].get_style(style_prop)
+          if all(p.get_style(style_prop) == value for p in paragraphs):
+            target_paragraph.set_style(style_prop, value)
+
         for (index, p) in enumerate(paragraphs):
           for span in list(p):
             # Remove child from its parent body
